@@ -247,6 +247,7 @@ def run(ctx, rep):
     rep.rule('C11.B', "the value cached by a CallableModel (`lp`) is read only behind its dirty flag inside CallableModel; everyone else calls the model")
     rep.rule('C11.F', "a dirty flag is cleared only on paths that ran the refresh it guards")
     rep.rule('C11.L', "values that are listened to are selected by the abstract parameter / model kind, never by a concrete leaf class")
+    rep.rule('C11.G', "an in-place indexed write into a parameter's tensor is done under torch.no_grad() (or where the tensor is known not to require grad): a parameter update never raises")
     rep.rule('C11.M', "a result memoised on the object is keyed by every method argument it depends on")
     rep.rule('C11.X', "no transform is built with torch's (x, y) cache switched on: the cache is keyed on the identity of the input tensor, which in-place updates "
                       "(optimiser steps, in-place proposals) do not change")
@@ -793,6 +794,30 @@ def check_inplace(ctx, rep, rule='C11.W', only=None):
                     writes.append((st, owner))
             if not writes:
                 continue
+            # C11.G: a leaf that requires grad cannot be written in place outside torch.no_grad(): the write raises instead of updating the parameter
+            if rule == 'C11.W':
+                for st, owner in writes:
+                    if not (isinstance(st, (ast.Assign, ast.AugAssign))):
+                        continue
+                    guarded = False
+                    p_, child_ = getattr(st, '_parent', None), st
+                    while p_ is not None and p_ is not fn:
+                        if isinstance(p_, ast.With) and any('no_grad' in ast.unparse(i.context_expr) for i in p_.items):
+                            guarded = True
+                        if isinstance(p_, ast.If) and 'requires_grad' in ast.unparse(p_.test):
+                            # only the branch on which the tensor is known not to require grad is safe
+                            negated = isinstance(p_.test, ast.UnaryOp) and isinstance(p_.test.op, ast.Not)
+                            in_else = any(child_ is x for x in p_.orelse)
+                            if (in_else and not negated) or (not in_else and negated):
+                                guarded = True
+                        p_, child_ = getattr(p_, '_parent', None), p_
+                    pc2 = fn
+                    while pc2 is not None and not isinstance(pc2, ast.ClassDef):
+                        pc2 = getattr(pc2, '_parent', None)
+                    scope2 = f"{pc2.name}.{fn.name}" if pc2 is not None else fn.name
+                    rep.check('C11.G', f"{m.name}::{scope2}::{norm_text(st)[:60]}", guarded, where(m, st), {'owner': ast.unparse(owner)},
+                              f"{scope2}: `{norm_text(st)[:60]}` writes into the tensor of {ast.unparse(owner)} in place; when that parameter requires grad (the optimiser switches "
+                              f"it on) PyTorch refuses (\"a leaf Variable that requires grad is being used in an in-place operation\"): the update raises")
             cfg = CFG(fn)
             for st, owner in writes:
                 n_sites += 1
